@@ -1065,6 +1065,7 @@ func TestVerifC18(t *testing.T) {
 	vC18Corpus(o)
 	vC18SizeBoundary(o, &vRand{s: o.seed*104729 + 17})
 	vC18XStream(o, &vRand{s: o.seed*15485863 + 29})
+	vC18AddrClassSweep(o, &vRand{s: o.seed*32452843 + 31})
 
 	// ---------- modelled fragment: attributes
 	nAttr := 10000
